@@ -24,7 +24,8 @@ EXTRA = {"C01-3": ["C12"], "C10-3": ["C12"], "C07-1": ["C04"], "C17-1": ["C02"],
          "C17-17": ["C16"], "C08-18": ["C01"], "C17-16": ["C01"], "C18-16": ["C01"], "C04-17": ["C09", "C12"], "C06-17": ["C09", "C12"],
          "C01-17": ["C12"], "C10-17": ["C12"], "C18-18": ["C12"],
          "C13-20": ["C14"], "C17-20": ["C01"], "C17-21": ["C07"], "C07-20": ["C04"], "C20-20": ["C12"], "C12-21": ["C01"], "C18-19": ["C02"],
-         "C18-20": ["C20", "C13"], "C12-19": ["C15"]}
+         "C18-20": ["C20", "C13"], "C12-19": ["C15"],
+         "C01-23": ["C12"], "C17-24": ["C04"], "C20-23": ["C13"], "C05-22": ["C02"], "C13-24": ["C02"], "C11-24": ["C02"], "C18-22": ["C02"]}
 
 
 def run(name):
